@@ -50,15 +50,23 @@ class FunctionReport:
             and all(self.canary_status().values())
 
 
+def _qualify_exc(repo, name):
+    if name in BUILTIN_EXC:
+        return name
+    if "." in name and repo.find_class(name) is not None:
+        return name
+    short = name.split(".")[-1]
+    for m in repo.modules.values():
+        if short in m.classes:
+            return m.classes[short].qual
+    return name
+
+
 def exc_matches(repo, raised, declared):
-    """is exception class `raised` a subclass of `declared` (names)"""
-    if raised == declared or raised.split(".")[-1] == declared.split(".")[-1]:
+    """is exception class `raised` a subclass of `declared` (names; repo classes may be given unqualified)"""
+    raised, declared = _qualify_exc(repo, raised), _qualify_exc(repo, declared)
+    if raised == declared:
         return True
-    if "." not in declared and declared not in BUILTIN_EXC:
-        for m in repo.modules.values():
-            if declared in m.classes:
-                declared = m.classes[declared].qual
-                break
     rb, db = BUILTIN_EXC.get(raised), BUILTIN_EXC.get(declared)
     if rb is not None and db is not None:
         return issubclass(rb, db)
@@ -176,7 +184,8 @@ class Verifier:
         if t == "none":
             return None
         if t == "entropy":
-            return SEntropy(len([1 for _ in ctx.entropy_pos]) + 1 + getattr(ctx, "_nstreams", 0))
+            ctx._nstreams = getattr(ctx, "_nstreams", 0) + 1
+            return SEntropy(ctx._nstreams)
         if t == "entropy_forbidden":
             return SEntropy(0, forbidden=True)
         if t == "bytelist":
@@ -499,14 +508,23 @@ class Verifier:
             g = z3.BoolVal(goal)
         else:
             g = goal.t if isinstance(goal, SBool) else goal
-        s = z3.Solver()
-        s.set("timeout", TIMEOUT_MS)
-        s.add(sym.FACTS.facts)
-        s.add(ctx.pc)
-        s.add(z3.Not(g))
         labs = [l for l, _ in ctx.labels]
-        r = s.check(*labs)
         status, model, core = "undecided", None, []
+
+        def attempt(transform, timeout_ms):
+            s = z3.Solver()
+            s.set("timeout", timeout_ms)
+            s.add([transform(f) for f in sym.FACTS.facts])
+            s.add([transform(f) for f in ctx.pc])
+            s.add(transform(z3.Not(g)))
+            if transform is sym.abstract_nl:
+                s.add(sym._ABS_SIDE)
+            return s, s.check(*labs)
+        # (1) nonlinear abstraction first: linear + EUF, fast and stable; only `unsat` is trusted
+        s, r = attempt(sym.abstract_nl, TIMEOUT_MS)
+        if r != z3.unsat:
+            # (2) exact query
+            s, r = attempt(lambda f: f, TIMEOUT_MS)
         if r == z3.unsat:
             status = "discharged"
             uc = s.unsat_core()
